@@ -209,6 +209,16 @@ pub mod raw {
             "vp_ris_ct_eq" => out.push(vp_ris_ct_eq(&rd::<EP>(a[0]), &rd::<EP>(a[1]))),
             "vp_ris_elligator" => wr(&vp_ris_elligator(&rd::<FE>(a[0])), out),
             "vp_ris_from_uniform_bytes" => wr(&vp_ris_from_uniform_bytes(&rd::<B64>(a[0])), out),
+            "g_opt_pippenger" | "g_opt_pippenger_dispatch" | "g_opt_multiscalar" => {
+                // args: n*32 scalar bytes, n*32 compressed points, 8-byte little-endian None mask -> 1 byte (1 = Some) followed by the compressed result
+                use crate::edwards::CompressedEdwardsY as C;
+                let n = a[0].len() / 32;
+                let ss: Vec<Scalar> = (0..n).map(|i| scalar_raw(rd::<B32>(&a[0][32 * i..32 * i + 32]))).collect();
+                let ps: Vec<EdwardsPoint> = (0..n).map(|i| C(rd::<B32>(&a[1][32 * i..32 * i + 32])).decompress().expect("replay point decodes")).collect();
+                let mask = rd::<u64>(a[2]); let mut o = EdwardsPoint::identity();
+                let ok = match name { "g_opt_pippenger" => vp_g_pippenger(&ss, &ps, mask, &mut o), "g_opt_pippenger_dispatch" => vp_g_pippenger_dispatch(&ss, &ps, mask, &mut o), _ => vp_g_optional_multiscalar_mul(&ss, &ps, mask, &mut o) };
+                out.push(ok as u8); wr(&o.compress().0, out)
+            }
             // ---- byte-level group entry points for the replay of layer-G counterexamples: points travel compressed, scalars as raw bytes
             "g_ed_mul" | "g_mul_base" | "g_vartime_double" | "g_multiscalar" | "g_vartime_multiscalar" => {
                 use crate::edwards::CompressedEdwardsY as C; use crate::traits::{MultiscalarMul, VartimeMultiscalarMul};
@@ -257,6 +267,21 @@ use crate::traits::{MultiscalarMul, VartimeMultiscalarMul};
 #[no_mangle] #[inline(never)] pub fn vp_g_vartime_double_pub(a: &Scalar, p: &EdwardsPoint, b: &Scalar) -> EdwardsPoint { EdwardsPoint::vartime_double_scalar_mul_basepoint(a, p, b) }
 #[cfg(feature = "alloc")]
 #[no_mangle] #[inline(never)] pub fn vp_g_vartime_multiscalar_mul(s: &[Scalar], p: &[EdwardsPoint]) -> EdwardsPoint { use crate::traits::VartimeMultiscalarMul; EdwardsPoint::vartime_multiscalar_mul(s.iter(), p.iter()) }
+// Pippenger (serial copy directly; the public API routes to it from 190 points on) and Option-valued points: bit i of none_mask makes point i None
+#[cfg(feature = "alloc")]
+#[no_mangle] #[inline(never)] pub fn vp_g_pippenger(s: &[Scalar], p: &[EdwardsPoint], none_mask: u64, out: &mut EdwardsPoint) -> bool {
+    use crate::traits::VartimeMultiscalarMul;
+    match ssm::pippenger::Pippenger::optional_multiscalar_mul(s.iter(), p.iter().enumerate().map(|(i, q)| if (none_mask >> (i & 63)) & 1 == 1 { None } else { Some(*q) })) { Some(r) => { *out = r; true } None => false }
+}
+#[cfg(feature = "alloc")]
+#[no_mangle] #[inline(never)] pub fn vp_g_pippenger_dispatch(s: &[Scalar], p: &[EdwardsPoint], none_mask: u64, out: &mut EdwardsPoint) -> bool {
+    match crate::backend::pippenger_optional_multiscalar_mul(s.iter(), p.iter().enumerate().map(|(i, q)| if (none_mask >> (i & 63)) & 1 == 1 { None } else { Some(*q) })) { Some(r) => { *out = r; true } None => false }
+}
+#[cfg(feature = "alloc")]
+#[no_mangle] #[inline(never)] pub fn vp_g_optional_multiscalar_mul(s: &[Scalar], p: &[EdwardsPoint], none_mask: u64, out: &mut EdwardsPoint) -> bool {
+    use crate::traits::VartimeMultiscalarMul;
+    match EdwardsPoint::optional_multiscalar_mul(s.iter(), p.iter().enumerate().map(|(i, q)| if (none_mask >> (i & 63)) & 1 == 1 { None } else { Some(*q) })) { Some(r) => { *out = r; true } None => false }
+}
 // the PUBLIC constant-time entry point on slices of any length (dispatch included): C04 / C14
 #[cfg(feature = "alloc")]
 #[no_mangle] #[inline(never)] pub fn vp_g_multiscalar_mul(s: &[Scalar], p: &[EdwardsPoint]) -> EdwardsPoint { use crate::traits::MultiscalarMul; EdwardsPoint::multiscalar_mul(s.iter(), p.iter()) }
